@@ -337,7 +337,7 @@ def bounds(tier):
 
 
 def _progs(tier):
-    return ["canonical", "nopending"] if tier == "quick" else ["canonical", "nopending", "container", "twofiles", "onlytrim"]
+    return ["canonical", "nopending", "twofiles"] if tier == "quick" else ["canonical", "nopending", "container", "twofiles", "onlytrim"]
 
 
 def explore(tier, seed, runner):
